@@ -52,10 +52,26 @@ type NonRevocationProofBuilder struct {
 	index       uint64
 }
 
+// ensureAccumulator unmarshals (and verifies) the accumulator of a witness that has not done so yet,
+// as is the case for a credential that was read from storage.
+func ensureAccumulator(pk *gabikeys.PublicKey, witness *revocation.Witness) error {
+	if witness == nil || witness.SignedAccumulator == nil {
+		return errors.New("nonrevocation witness has no accumulator")
+	}
+	if witness.SignedAccumulator.Accumulator != nil {
+		return nil
+	}
+	_, err := witness.SignedAccumulator.UnmarshalVerify(pk)
+	return err
+}
+
 // UpdateCommit updates the builder to the latest accumulator contained in the specified (updated) witness.
 func (b *NonRevocationProofBuilder) UpdateCommit(witness *revocation.Witness) error {
 	if b == nil || b.commit == nil || len(b.commitments) < 5 {
 		return errors.New("cannot update noninitialized NonRevocationProofBuilder")
+	}
+	if err := ensureAccumulator(b.pk, witness); err != nil {
+		return err
 	}
 	if b.index >= witness.SignedAccumulator.Accumulator.Index {
 		return nil
@@ -265,6 +281,9 @@ func (ic *Credential) NonrevPrepareCache() error {
 func (ic *Credential) NonrevBuildProofBuilder() (*NonRevocationProofBuilder, error) {
 	if ic.NonRevocationWitness == nil {
 		return nil, errors.New("credential has no nonrevocation witness")
+	}
+	if err := ensureAccumulator(ic.Pk, ic.NonRevocationWitness); err != nil {
+		return nil, err
 	}
 	b := &NonRevocationProofBuilder{
 		pk:         ic.Pk,
